@@ -103,9 +103,13 @@ def run_case(ctx, kind, rng, idx):
     ctx.describe(desc)
     ctx.seen('criteria', '%s/%s/%s' % (nc_kind, co_kind, init_kind))
 
+    as_list = bool(rng.random() < 0.5)
+
     def run(tri):
         ctx.hist = []
         init = None if init_idx is None else X[init_idx].copy()
+        if init is not None and as_list:
+            init = [r for r in init]          # a plain list of frames
         fz = Frozen(X, init)
         if est:
             e = kcenters.KCenters(m, n_clusters=n_clusters,
